@@ -466,6 +466,9 @@ impl<'c> Hist<'c> {
 			if !matches!(self.profile, Profile::C08 | Profile::C11) {
 				w[10] = 0;
 			}
+			if self.profile == Profile::C11 {
+				w[10] = 30;
+			}
 			if self.bg_err {
 				// after a background error only commits (all refused) and reads make sense
 				w = [50, 0, 0, 0, 0, 0, 0, 6, 10, 0, 0];
@@ -965,9 +968,57 @@ impl<'c> Hist<'c> {
 		if live.is_empty() {
 			return Ok(())
 		}
+		// scripted sub-scenario: a reader handle that OUTLIVES a processed dereference of its root
+		// key (tree still or again present) and is locked only afterwards, followed by a further
+		// dereference under the guard
+		if self.rng.chance(1, 12) && guards.len() < 3 {
+			let k = self.rng.pick(&live).clone();
+			if guards.iter().any(|g| g.1 == k) || self.mirror.iter().flatten().any(|o| o.key() == &k) {
+				return Ok(())
+			}
+			let handle = match db.get_tree(c, &k) {
+				Ok(Some(t)) => t,
+				_ => return Ok(()),
+			};
+			self.log(format!("scenario: handle of tree {} obtained, not locked", short_bytes(&k)));
+			if tm.rc_roots {
+				self.commit_tx(db, rep, vec![Op::RefTree(c, k.clone())], None)?;
+				self.commit_tx(db, rep, vec![Op::DerefTree(c, k.clone())], None)?;
+			} else {
+				// plain column: remove the tree and insert a new tree under the same key
+				let root = tm.roots.get(&k).unwrap().clone();
+				self.commit_tx(db, rep, vec![Op::DerefTree(c, k.clone())], None)?;
+				let mut bound = 0;
+				while db.verif_status().queued_commits > 0 && bound < 1000 {
+					self.pipeline(db, rep, Step::ProcessCommits)?;
+					bound += 1;
+				}
+				self.tree_nonce += 1;
+				let mut data = root.data.clone();
+				data.extend_from_slice(&self.tree_nonce.to_le_bytes());
+				let spec = TreeSpec { data, children: vec![ChildSpec::New(TreeSpec::leaf(self.tree_nonce.to_le_bytes().to_vec()))] };
+				self.commit_tx(db, rep, vec![Op::InsertTree(c, k.clone(), spec)], None)?;
+			}
+			let mut bound = 0;
+			while db.verif_status().queued_commits > 0 && bound < 1000 {
+				self.pipeline(db, rep, Step::ProcessCommits)?;
+				bound += 1;
+			}
+			self.validate(db, rep, false)?;
+			if self.trees.get(&c).unwrap().roots.contains_key(&k) {
+				self.log(format!("scenario: lock the old handle of tree {}", short_bytes(&k)));
+				let held = Held::new(handle);
+				guards.push((c, k.clone(), Box::new(held)));
+				rep.count("guards_taken", 1);
+				rep.count("old_handles_locked_after_processed_deref", 1);
+				self.commit_tx(db, rep, vec![Op::DerefTree(c, k.clone())], None)?;
+				rep.count("guard_held_derefs", 1);
+			}
+			return Ok(())
+		}
 		// a reader handle may be obtained long before it is locked: keep some unlocked handles
 		// around and lock them later (the registry must still protect the tree then)
-		if r == 3 && self.handles.len() < 3 {
+		if (r == 3 || (r == 5 && self.handles.is_empty())) && self.handles.len() < 3 {
 			let k = self.rng.pick(&live).clone();
 			if let Ok(Some(t)) = db.get_tree(c, &k) {
 				self.log(format!("obtain (unlocked) reader handle of tree {}", short_bytes(&k)));
@@ -976,7 +1027,7 @@ impl<'c> Hist<'c> {
 			}
 			return Ok(())
 		}
-		if r == 4 && !self.handles.is_empty() && guards.len() < 3 {
+		if (r == 4 || r == 6) && !self.handles.is_empty() && guards.len() < 3 {
 			let i = self.rng.usize(self.handles.len());
 			let (k, t) = self.handles.remove(i);
 			if tm.roots.contains_key(&k) && !guards.iter().any(|g| g.1 == k) {
